@@ -106,6 +106,14 @@ Theorem tax_summary_and_tax_sum_independent_of_row_order cr c tls tls' :
 Proof. exact (tax_summary_independent_of_row_order cr c tls tls'). Qed.
 Print Assumptions tax_summary_and_tax_sum_independent_of_row_order.
 
+(* ... and the hypothesis cannot be dropped: without it the sign of the tax sum depends on row order *)
+Theorem tax_sum_independent_of_row_order_without_retention_hypothesis_refuted :
+  exists cr c tls tls', Permutation tls tls' /\
+    fold_left (sum_step cr) (map (ct_calc cr c) (base_totals cr c tls)) (zero_of c) <>
+    fold_left (sum_step cr) (map (ct_calc cr c) (base_totals cr c tls')) (zero_of c).
+Proof. exact tax_sum_without_consistent_retention_refuted. Qed.
+Print Assumptions tax_sum_independent_of_row_order_without_retention_hypothesis_refuted.
+
 (* the same without the up-to-order vocabulary: for every category code and every query combo q, the group
    q falls into has the same base, amount and surcharge amount (or is absent in both) *)
 Theorem tax_group_figures_independent_of_row_order cr c tls tls' code q :
